@@ -142,13 +142,16 @@ pub fn check_graph_c08(b: &Built, rec: &Recorder, c: &mut Counters, weighted_mod
                     }
                     // entry-point agreement (one cutoff menu for the whole graph)
                     for &cutoff in &union_cutoffs {
-                        for (call, is_ap) in [("dijkstra::all_pairs", true), ("dijkstra::multi_source", false)] {
+                        for (call, is_ap, par) in [("dijkstra::all_pairs", true, false), ("dijkstra::multi_source", false, false), ("dijkstra::all_pairs", true, true), ("dijkstra::multi_source", false, true)] {
                             if b.n == 0 {
                                 continue;
                             }
                             calls += 1;
-                            let sub = format!("{}|{}:w={}:t={:?}:c={:?}:fo={}:wp={}", b.case, if is_ap { "ap" } else { "ms" }, weighted, tname, cutoff, first_only, with_paths);
+                            let sub = format!("{}|{}{}:w={}:t={:?}:c={:?}:fo={}:wp={}", b.case, if is_ap { "ap" } else { "ms" }, if par { "-par" } else { "" }, weighted, tname, cutoff, first_only, with_paths);
+                            // par: the parallel code path forced (hook H6) under real rayon
+                            graphrs::verif_hooks::set_parallel_override(if par { Some(true) } else { None });
                             let r: Result<Result<HashMap<N, HashMap<N, ShortestPathInfo<N>>>, graphrs::Error>, PanicInfo> = guarded(|| if is_ap { dijkstra::all_pairs(&b.g, weighted, tname, cutoff, first_only, with_paths) } else { dijkstra::multi_source(&b.g, weighted, all_names.clone(), tname, cutoff, first_only, with_paths) });
+                            graphrs::verif_hooks::set_parallel_override(None);
                             match r {
                                 Err(pi) => rec.record(mk("no_panic", call, sub.clone(), pi.msg.clone()).with_panic(pi)),
                                 Ok(Err(e)) => rec.record(mk("unexpected_error", call, sub.clone(), format!("Err({:?})", e.kind))),
